@@ -70,3 +70,54 @@ func TestFragment_Open_TornOpLog(t *testing.T) {
 		t.Fatalf("unexpected row 1: %v", cols)
 	}
 }
+
+// setRow and clearRow do not go through the op log: when they return, the
+// snapshot carrying the change must be in place, also when the source row is
+// empty in this shard.
+func TestFragment_RowOps_DurableOnReturn(t *testing.T) {
+	f := mustOpenFragment("i", "f", viewStandard, 0, "")
+	defer f.Clean(t)
+	if f.snapshotQueue == nil {
+		t.Fatal("test fragment has no snapshot queue")
+	}
+
+	f.mustSetBits(1, 10, 20)
+	f.mustSetBits(2, 30)
+
+	reread := func() *fragment {
+		g := newFragment(f.path+".copy", "i", "f", viewStandard, 0, 0)
+		data, err := os.ReadFile(f.path)
+		if err != nil {
+			t.Fatal(err)
+		}
+		if err := os.WriteFile(g.path, data, 0666); err != nil {
+			t.Fatal(err)
+		}
+		if err := g.Open(); err != nil {
+			t.Fatal(err)
+		}
+		return g
+	}
+
+	if _, err := f.clearRow(1); err != nil {
+		t.Fatal(err)
+	}
+	g := reread()
+	if cols := g.row(1).Columns(); len(cols) != 0 {
+		t.Fatalf("clearRow returned before it was durable: row 1 = %v on disk", cols)
+	}
+	g.Clean(t)
+
+	// row 2 := row 1, which is empty now
+	if _, err := f.setRow(f.row(1), 2); err != nil {
+		t.Fatal(err)
+	}
+	if cols := f.row(2).Columns(); len(cols) != 0 {
+		t.Fatalf("row 2 = %v after storing an empty row", cols)
+	}
+	g = reread()
+	if cols := g.row(2).Columns(); len(cols) != 0 {
+		t.Fatalf("setRow returned before it was durable: row 2 = %v on disk", cols)
+	}
+	g.Clean(t)
+}
